@@ -246,21 +246,25 @@ abbrev afterI (cfg : Iter.Cfg) (script : Nat → IBeh) (ops : List Iter.Op) : It
   (Iter.run cfg script Iter.St.init ops).1
 
 /-- **A replay is exactly one complete real run.**  In every reachable state, when a call with
-key `k` is answered from the cache, what its consumer receives (`rs`) is - in order and in full,
-whatever the items are (`None`, falsy constants, a final exception) - everything that ONE logged
-run `n` of the generator *with the same key* delivered, i.e. `produced n (script n).steps 0`; that
-run started less than ttl ago, and the condition accepted every one of its items. -/
+key `k` is answered from the cache, the replay is - in order and in full, whatever the items are (`None`,
+falsy constants, a final exception) - everything that ONE logged run `n` of the generator *with the same
+key* delivered, and that run ended by itself (it completed, or raised: it was neither abandoned by its
+consumer nor cancelled), so what it delivered is everything its body produces, `produced n (script n).steps 0`;
+that run started less than ttl ago, and the condition accepted every one of its items.  What the consumer of
+the replay receives (`rs`) is that sequence (a consumer that stops after `j+1` elements: its first `j+1`). -/
 theorem iterator_replays_one_complete_run (cfg : Iter.Cfg) (script : Nat → IBeh) (ops : List Iter.Op) (k : Nat)
-    (rs : List Res) (h : (Iter.step cfg script (afterI cfg script ops) (.iter k)).2 = .got rs true) :
+    (cs : Consumer) (rs : List Res) (h : (Iter.step cfg script (afterI cfg script ops) (.iter k cs)).2 = .got rs true) :
     ∃ n r, (afterI cfg script ops).runs[n]? = some r ∧ r.key = k ∧
-      rs = r.outs ∧ rs = produced n (script n).steps 0 ∧ rs ≠ [] ∧
+      (r.ending = .completed ∨ r.ending = .raised) ∧
+      r.outs = produced n (script n).steps 0 ∧ r.outs ≠ [] ∧
+      rs = cs.view r.outs ∧ ((∀ j, cs ≠ .take j) → rs = r.outs) ∧
       allOk cfg.cond (script n).steps = true ∧
       r.start ≤ (afterI cfg script ops).store.now ∧ (afterI cfg script ops).store.now < r.start + cfg.ttl k := by
   have inv : Iter.Inv cfg script (afterI cfg script ops) := Iter.inv_run (Iter.inv_init cfg script) ops
   generalize afterI cfg script ops = s at h inv ⊢
   by_cases hc : markerCount (s.store.find (ckey k 0)) = 0
-  · rw [step_iter_miss cfg script s k hc] at h; simp at h
-  · rw [step_iter_hit cfg script s k hc] at h
+  · rw [step_iter_miss cfg script s k cs hc] at h; simp at h
+  · rw [step_iter_hit cfg script s k cs hc] at h
     simp only [Iter.Out.got.injEq, and_true] at h
     cases hf : s.store.find (ckey k 0) with
     | none => rw [hf] at hc; exact absurd rfl hc
@@ -274,54 +278,73 @@ theorem iterator_replays_one_complete_run (cfg : Iter.Cfg) (script : Nat → IBe
         simpa using hl
       have hrep := replay_cached hca hlive r.outs.length 0 (by simp)
       rw [hf, markerCount_cached hca, hrep, List.drop_zero] at h
-      refine ⟨n, r, hn, hca.key, h.symm, by rw [← h]; exact inv.stamped n r hn, ?_, hall,
+      have hend : r.ending = .completed ∨ r.ending = .raised := by
+        have := hca.done
+        cases he : r.ending <;> simp [he, Ending.done] at this ⊢
+      refine ⟨n, r, hn, hca.key, hend, inv.complete n r hn hca.done, ?_, h.symm, ?_, hall,
         inv.past r (List.mem_of_getElem? hn), hlive⟩
-      intro hnil
-      rw [← h] at hnil
-      exact hca.ne (by simp [hnil])
+      · intro hnil
+        exact hca.ne (by simp [hnil])
+      · intro hnt
+        rw [← h]
+        cases cs with
+        | take j => exact absurd rfl (hnt j)
+        | drain => rfl
+        | cancel j => rfl
 
-/-- **A call that is not answered from the cache performs one real run** and hands its consumer
-everything that run produces (the run is logged with this key and the current instant). -/
-theorem iterator_miss_is_a_real_run (cfg : Iter.Cfg) (script : Nat → IBeh) (ops : List Iter.Op) (k : Nat)
-    (rs : List Res) (h : (Iter.step cfg script (afterI cfg script ops) (.iter k)).2 = .got rs false) :
+/-- **A call that is not answered from the cache performs one real run** and hands its consumer what that run
+delivers to it: a prefix of what the body produces - all of it when the run ends by itself (the consumer drains
+the stream, or the body ends or raises before the consumer stops); the run is logged with this key, the current
+instant, the consumer and the way it ended. -/
+theorem iterator_miss_is_a_real_run (cfg : Iter.Cfg) (script : Nat → IBeh) (ops : List Iter.Op) (k : Nat) (cs : Consumer)
+    (rs : List Res) (h : (Iter.step cfg script (afterI cfg script ops) (.iter k cs)).2 = .got rs false) :
     let n := (afterI cfg script ops).runs.length
-    rs = produced n (script n).steps 0 ∧
-    (Iter.step cfg script (afterI cfg script ops) (.iter k)).1.runs =
+    rs = delivered cs n (script n).steps 0 ∧
+    rs = (produced n (script n).steps 0).take rs.length ∧
+    ((ending cs (script n).steps 0).done = true → rs = produced n (script n).steps 0) ∧
+    (cs = .drain → rs = produced n (script n).steps 0) ∧
+    (Iter.step cfg script (afterI cfg script ops) (.iter k cs)).1.runs =
       (afterI cfg script ops).runs ++ [⟨k, (afterI cfg script ops).store.now, rs,
-        (Iter.step cfg script (afterI cfg script ops) (.iter k)).1.store.now⟩] := by
+        (Iter.step cfg script (afterI cfg script ops) (.iter k cs)).1.store.now, cs, ending cs (script n).steps 0⟩] := by
   generalize afterI cfg script ops = s at h ⊢
   by_cases hc : markerCount (s.store.find (ckey k 0)) = 0
-  · rw [step_iter_miss cfg script s k hc] at h ⊢
+  · rw [step_iter_miss cfg script s k cs hc] at h ⊢
     simp only [Iter.Out.got.injEq, and_true] at h
-    refine ⟨h.symm, ?_⟩
-    simp only [Iter.missState]
-    rw [body_outs, h]
-  · rw [step_iter_hit cfg script s k hc] at h; simp at h
+    refine ⟨h.symm, ?_, ?_, ?_, ?_⟩
+    · rw [← h]; exact delivered_prefix _ _ _ _
+    · intro hd; rw [← h]; exact delivered_done _ _ _ _ hd
+    · intro hd; subst hd; rw [← h]; exact delivered_done _ _ _ _ (ending_drain_done _ _)
+    · simp only [Iter.missState]
+      rw [body_outs, h]
+  · rw [step_iter_hit cfg script s k cs hc] at h; simp at h
 
 /-- **The generator is run iff there is no cached run.**  In every reachable state a call with key `k` is
-answered from the cache (state unchanged) exactly when the log holds a run with the same key that delivered
-something, whose every item (and final exception, if any) the condition accepted, that took less than its ttl
-and started less than ttl ago; otherwise the generator is run once more (the run log grows by one). -/
-theorem iterator_executes_iff_no_cached_run (cfg : Iter.Cfg) (script : Nat → IBeh) (ops : List Iter.Op) (k : Nat) :
+answered from the cache (state unchanged) exactly when the log holds a run with the same key that ended by itself
+(completed or raised - not abandoned, not cancelled), delivered something, whose every item (and final exception,
+if any) the condition accepted, that took less than its ttl and started less than ttl ago; otherwise the generator
+is run once more (the run log grows by one) - whatever the consumers of the earlier calls and of this call do. -/
+theorem iterator_executes_iff_no_cached_run (cfg : Iter.Cfg) (script : Nat → IBeh) (ops : List Iter.Op) (k : Nat)
+    (cs : Consumer) :
     let s := afterI cfg script ops
-    let cachedRun := ∃ n r, s.runs[n]? = some r ∧ r.key = k ∧ r.outs ≠ [] ∧ allOk cfg.cond (script n).steps = true ∧
+    let cachedRun := ∃ n r, s.runs[n]? = some r ∧ r.key = k ∧ r.ending.done = true ∧ r.outs ≠ [] ∧
+      allOk cfg.cond (script n).steps = true ∧
       r.fin < r.start + cfg.ttl k ∧ s.store.now < r.start + cfg.ttl k
-    (¬ cachedRun → (Iter.step cfg script s (.iter k)).1.runs.length = s.runs.length + 1 ∧
-        ∃ rs, (Iter.step cfg script s (.iter k)).2 = .got rs false) ∧
-    (cachedRun → (Iter.step cfg script s (.iter k)).1 = s ∧ ∃ rs, (Iter.step cfg script s (.iter k)).2 = .got rs true) := by
+    (¬ cachedRun → (Iter.step cfg script s (.iter k cs)).1.runs.length = s.runs.length + 1 ∧
+        ∃ rs, (Iter.step cfg script s (.iter k cs)).2 = .got rs false) ∧
+    (cachedRun → (Iter.step cfg script s (.iter k cs)).1 = s ∧ ∃ rs, (Iter.step cfg script s (.iter k cs)).2 = .got rs true) := by
   intro s cachedRun
   have inv : Iter.Inv cfg script s := Iter.inv_run (Iter.inv_init cfg script) ops
   by_cases hc : markerCount (s.store.find (ckey k 0)) = 0
   · have hno : ¬ cachedRun := by
-      intro ⟨n, r, hn, hk, hne, hall, hfast, hfresh⟩
+      intro ⟨n, r, hn, hk, hdone, hne, hall, hfast, hfresh⟩
       subst hk
-      have hm := inv.latest n r hn hall hne hfast hfresh
+      have hm := inv.latest n r hn hdone hall hne hfast hfresh
       have hf : s.store.find (ckey r.key 0) = some ⟨.int (r.outs.length : Nat), some (r.start + cfg.ttl r.key)⟩ :=
         find_eq_some.mpr ⟨hm, by simp [Entry.live]; omega⟩
       rw [hf] at hc
       simp only [markerCount] at hc
       exact hne (by simpa using hc)
-    rw [step_iter_miss cfg script s k hc]
+    rw [step_iter_miss cfg script s k cs hc]
     exact ⟨fun _ => ⟨by simp [Iter.missState], _, rfl⟩, fun h => absurd h hno⟩
   · have hyes : cachedRun := by
       cases hf : s.store.find (ckey k 0) with
@@ -329,30 +352,99 @@ theorem iterator_executes_iff_no_cached_run (cfg : Iter.Cfg) (script : Nat → I
       | some e =>
         obtain ⟨hm, hl⟩ := find_eq_some.mp hf
         obtain ⟨n, r, hn, hca, hall⟩ := inv.cached k e hm hl
-        refine ⟨n, r, hn, hca.key, ?_, hall, hca.intime, ?_⟩
+        refine ⟨n, r, hn, hca.key, hca.done, ?_, hall, hca.intime, ?_⟩
         · intro h; exact hca.ne (by simp [h])
         · have := hca.dl
           unfold Entry.live at hl
           rw [this] at hl
           simpa using hl
-    rw [step_iter_hit cfg script s k hc]
+    rw [step_iter_hit cfg script s k cs hc]
     exact ⟨fun h => absurd hyes h, fun _ => ⟨rfl, _, rfl⟩⟩
+
+/-- **An abandoned or cancelled run stores no marker.**  In every reachable state, when a call with key `k` runs
+the generator and that run does not end by itself - its consumer stops after some items (`break` / `aclose()` /
+the stream is dropped) or is cancelled while the body is working -, then the run is logged as abandoned or
+cancelled, the marker of *every* key is exactly what it was, and the only slots of the store that may differ are
+chunk slots of key `k` itself (which no replay reads without a marker that counts them). -/
+theorem interrupted_run_stores_no_marker (cfg : Iter.Cfg) (script : Nat → IBeh) (ops : List Iter.Op) (k : Nat) (cs : Consumer)
+    (hmiss : markerCount ((afterI cfg script ops).store.find (ckey k 0)) = 0)
+    (hint : (ending cs (script (afterI cfg script ops).runs.length).steps 0).done = false) :
+    let s := afterI cfg script ops
+    let s' := (Iter.step cfg script s (.iter k cs)).1
+    (∃ r, s'.runs = s.runs ++ [r] ∧ r.key = k ∧ r.cons = cs ∧ (r.ending = .abandoned ∨ r.ending = .cancelled)) ∧
+    (∀ k', s'.store.m (ckey k' 0) = s.store.m (ckey k' 0)) ∧
+    (∀ q, (∀ j, q ≠ ckey k (j + 1)) → s'.store.m q = s.store.m q) := by
+  intro s s'
+  have hs' : s' = Iter.missState cfg script s k cs := by
+    show (Iter.step cfg script s (.iter k cs)).1 = _
+    rw [step_iter_miss cfg script s k cs hmiss]
+  rw [hs']
+  refine ⟨⟨_, rfl, rfl, rfl, ?_⟩, ?_, ?_⟩
+  · show ending cs (script s.runs.length).steps 0 = .abandoned ∨ ending cs (script s.runs.length).steps 0 = .cancelled
+    have hint' : (ending cs (script s.runs.length).steps 0).done = false := hint
+    revert hint'
+    cases ending cs (script s.runs.length).steps 0 <;> simp [Ending.done]
+  · intro k'
+    exact miss_interrupted cfg script s k cs hint _ (fun j => ckey_ne_of_slot (by omega) k)
+  · intro q hq
+    exact miss_interrupted cfg script s k cs hint q hq
+
+/-- **… and is never replayed.**  In every reachable state, for every logged run number `n` that was abandoned or
+cancelled: whatever a call is answered with from the cache is the complete sequence of a *different* logged run `n'`
+that ended by itself; in particular no stamped item of run `n` (a payload `val n i`) is ever replayed. -/
+theorem interrupted_run_never_replayed (cfg : Iter.Cfg) (script : Nat → IBeh) (ops : List Iter.Op) (n : Nat) (r : Run)
+    (hr : (afterI cfg script ops).runs[n]? = some r) (hint : r.ending = .abandoned ∨ r.ending = .cancelled)
+    (k : Nat) (cs : Consumer) (rs : List Res)
+    (h : (Iter.step cfg script (afterI cfg script ops) (.iter k cs)).2 = .got rs true) :
+    (∃ n' r', n' ≠ n ∧ (afterI cfg script ops).runs[n']? = some r' ∧ r'.key = k ∧
+      (r'.ending = .completed ∨ r'.ending = .raised) ∧ r'.outs = produced n' (script n').steps 0 ∧ rs = cs.view r'.outs) ∧
+    ∀ i, Res.val n i ∉ rs := by
+  obtain ⟨n', r', hn', hk, hend, hprod, _, hrs, _, _, _, _⟩ := iterator_replays_one_complete_run cfg script ops k cs rs h
+  have hne : n' ≠ n := by
+    intro hnn; subst hnn
+    rw [hr] at hn'; simp only [Option.some.injEq] at hn'; subst hn'
+    rcases hint with h1 | h1 <;> rcases hend with h2 | h2 <;> rw [h1] at h2 <;> cases h2
+  refine ⟨⟨n', r', hne, hn', hk, hend, hprod, hrs⟩, ?_⟩
+  intro i hmem
+  have hmem' : Res.val n i ∈ r'.outs := by
+    rw [hrs] at hmem
+    cases cs with
+    | take j => exact List.mem_of_mem_take hmem
+    | drain => exact hmem
+    | cancel j => exact hmem
+  rw [hprod] at hmem'
+  exact hne (produced_val_stamp n' (script n').steps 0 n i hmem')
 
 /-- **The failure at the end of a replayed run is the very exception that run raised.**  In every reachable
 state, when a call with key `k` is answered from the cache and its consumer meets an exception of class `c`,
-payload `p` and stamp `m` at position `j`, then `m` is a logged run with the same key, the exception is the
-last thing the replay delivers, and the body of run `m` is `pre ++ (raise class c payload p) :: _` with `j`
-items in `pre`, none of them a raise: class, payload and stamp are those of what that run raised. -/
+payload `p` and stamp `m` at position `j`, then `m` is a logged run with the same key that ended by raising, the
+exception is the last thing that run delivered (and the last thing the consumer receives), and the body of run `m`
+is `pre ++ (raise class c payload p) :: _` with `j` items in `pre`, none of them a raise: class, payload and stamp
+are those of what that run raised. -/
 theorem iterator_replayed_exception_is_the_raised_one (cfg : Iter.Cfg) (script : Nat → IBeh) (ops : List Iter.Op)
-    (k : Nat) (rs : List Res) (h : (Iter.step cfg script (afterI cfg script ops) (.iter k)).2 = .got rs true)
+    (k : Nat) (cs : Consumer) (rs : List Res)
+    (h : (Iter.step cfg script (afterI cfg script ops) (.iter k cs)).2 = .got rs true)
     (j c p m : Nat) (hj : rs[j]? = some (.exc c p m)) :
-    ∃ r, (afterI cfg script ops).runs[m]? = some r ∧ r.key = k ∧ rs = r.outs ∧ j + 1 = rs.length ∧
+    ∃ r, (afterI cfg script ops).runs[m]? = some r ∧ r.key = k ∧ rs = cs.view r.outs ∧ j + 1 = r.outs.length ∧
+      j + 1 = rs.length ∧
       ∃ pre d rest, (script m).steps = pre ++ (.exc c p, d) :: rest ∧ pre.length = j ∧
         ∀ st ∈ pre, ∀ c' p', st.1 ≠ .exc c' p' := by
-  obtain ⟨n, r, hn, hk, hrs, hprod, _, _, _, _⟩ := iterator_replays_one_complete_run cfg script ops k rs h
-  rw [hprod] at hj
-  obtain ⟨rfl, hlen, pre, d, rest, hsteps, hpl, hpre⟩ := produced_exc_at n (script n).steps 0 j c p m hj
-  exact ⟨r, hn, hk, hrs, by rw [hprod]; exact hlen, pre, d, rest, hsteps, hpl, hpre⟩
+  obtain ⟨n, r, hn, hk, _, hprod, _, hrs, _, _, _, _⟩ := iterator_replays_one_complete_run cfg script ops k cs rs h
+  have hj' : r.outs[j]? = some (.exc c p m) ∧ (j + 1 = r.outs.length → j + 1 = rs.length) := by
+    rw [hrs] at hj ⊢
+    cases cs with
+    | take i =>
+      simp only [Consumer.view] at hj ⊢
+      rw [List.getElem?_take] at hj
+      split at hj
+      · exact ⟨hj, fun hl => by rw [List.length_take]; omega⟩
+      · cases hj
+    | drain => exact ⟨hj, id⟩
+    | cancel i => exact ⟨hj, id⟩
+  obtain ⟨hj1, hj2⟩ := hj'
+  rw [hprod] at hj1
+  obtain ⟨rfl, hlen, pre, d, rest, hsteps, hpl, hpre⟩ := produced_exc_at n (script n).steps 0 j c p m hj1
+  exact ⟨r, hn, hk, hrs, by rw [hprod]; exact hlen, hj2 (by rw [hprod]; exact hlen), pre, d, rest, hsteps, hpl, hpre⟩
 
 /-! ### Non-vacuity (iterator) -/
 
@@ -365,28 +457,59 @@ def sampleRuns : Nat → IBeh
 
 /-- D16 + D17: a shorter run after a longer one whose last chunk is still alive is replayed alone, in full,
 falsy first item included (ttl 8 ticks; the marker of run 0 dies at 8, its third chunk lives until 12) -/
-example : (Iter.run ⟨.all, fun _ => 8⟩ sampleRuns Iter.St.init [.iter 0, .iter 0, .adv 8, .iter 0, .iter 0]).2 =
+example : (Iter.run ⟨.all, fun _ => 8⟩ sampleRuns Iter.St.init [.iter 0 .drain, .iter 0 .drain, .adv 8, .iter 0 .drain, .iter 0 .drain]).2 =
     [.got [.val 0 0, .val 0 1, .val 0 2] false, .got [.val 0 0, .val 0 1, .val 0 2] true, .unit,
      .got [.falsy 0, .val 1 1] false, .got [.falsy 0, .val 1 1] true] := by decide
 
 /-- D18: a run with an item the condition rejects is not cached (it is run again) -/
-example : (Iter.run ⟨.notNone, fun _ => 8⟩ sampleRuns Iter.St.init [.iter 0, .adv 8, .iter 0, .adv 8, .iter 0, .iter 0]).2 =
+example : (Iter.run ⟨.notNone, fun _ => 8⟩ sampleRuns Iter.St.init [.iter 0 .drain, .adv 8, .iter 0 .drain, .adv 8, .iter 0 .drain, .iter 0 .drain]).2 =
     [.got [.val 0 0, .val 0 1, .val 0 2] false, .unit, .got [.falsy 0, .val 1 1] false, .unit,
      .got [.val 2 0, .none, .val 2 2] false, .got [.val 3 0, .exc 1 2 3] false] := by decide
 
 /-- a run that ends with a selected exception is replayed, exception included -/
-example : (Iter.run ⟨.withExc [], fun _ => 8⟩ (fun _ => ⟨[(.val, 0), (.exc 1 4, 7)], 0⟩) Iter.St.init [.iter 0, .iter 0]).2 =
+example : (Iter.run ⟨.withExc [], fun _ => 8⟩ (fun _ => ⟨[(.val, 0), (.exc 1 4, 7)], 0⟩) Iter.St.init [.iter 0 .drain, .iter 0 .drain]).2 =
     [.got [.val 0 0, .exc 1 4 0] false, .got [.val 0 0, .exc 1 4 0] true] := by decide
 
 /-- the hypotheses of `iterator_replayed_exception_is_the_raised_one` are satisfiable: that replay holds the
 exception of class 1, payload 4 raised by run 0 at position 1 -/
 example : ∃ rs, (Iter.step ⟨.withExc [], fun _ => 8⟩ (fun _ => ⟨[(.val, 0), (.exc 1 4, 7)], 0⟩)
-      (afterI ⟨.withExc [], fun _ => 8⟩ (fun _ => ⟨[(.val, 0), (.exc 1 4, 7)], 0⟩) [.iter 0]) (.iter 0)).2 = .got rs true ∧
+      (afterI ⟨.withExc [], fun _ => 8⟩ (fun _ => ⟨[(.val, 0), (.exc 1 4, 7)], 0⟩) [.iter 0 .drain]) (.iter 0 .drain)).2 = .got rs true ∧
     rs[1]? = some (.exc 1 4 0) := ⟨[.val 0 0, .exc 1 4 0], by decide, by decide⟩
 
 /-- … but not when it lasted exactly ttl (D18b / 5b10c85) -/
-example : (Iter.run ⟨.withExc [], fun _ => 8⟩ (fun _ => ⟨[(.val, 0), (.exc 1 4, 8)], 0⟩) Iter.St.init [.iter 0, .iter 0]).2 =
+example : (Iter.run ⟨.withExc [], fun _ => 8⟩ (fun _ => ⟨[(.val, 0), (.exc 1 4, 8)], 0⟩) Iter.St.init [.iter 0 .drain, .iter 0 .drain]).2 =
     [.got [.val 0 0, .exc 1 4 0] false, .got [.val 1 0, .exc 1 4 1] false] := by decide
+
+/-- three payloads, no delays -/
+def threeItems : Nat → IBeh := fun _ => ⟨[(.val, 0), (.val, 0), (.val, 0)], 0⟩
+
+/-- an abandoned run (the consumer closes the stream after 2 of 3 items) and a cancelled one (while the body works on
+its third item) are not cached: the next call runs the generator again and gets everything; a consumer that stops
+early on a replay receives a prefix of the cached run and changes nothing; a consumer that takes all three items but
+never asks for the end has abandoned the run as well -/
+example : (Iter.run ⟨.all, fun _ => 8⟩ threeItems Iter.St.init
+      [.iter 0 (.take 1), .iter 0 (.cancel 2), .iter 0 (.take 2), .iter 0 (.cancel 3), .iter 0 .drain, .iter 0 (.take 0),
+       .iter 0 (.cancel 1)]).2 =
+    [.got [.val 0 0, .val 0 1] false, .got [.val 1 0, .val 1 1] false, .got [.val 2 0, .val 2 1, .val 2 2] false,
+     .got [.val 3 0, .val 3 1, .val 3 2] false, .got [.val 4 0, .val 4 1, .val 4 2] false,
+     .got [.val 4 0] true, .got [.val 4 0, .val 4 1, .val 4 2] true] := by decide
+
+/-- how those runs are logged; a consumer that would stop later than the body ends (or raises) has a complete run -/
+example : ((afterI ⟨.all, fun _ => 8⟩ threeItems [.iter 0 (.take 1), .iter 0 (.cancel 2), .iter 0 (.cancel 3), .iter 0 (.take 3)]).runs.map
+      (·.ending)) = [.abandoned, .cancelled, .cancelled, .completed] := by decide
+example : ending (.take 1) [(.val, 0), (.exc 1 0, 0)] 0 = .raised ∧ ending (.cancel 1) [(.val, 0), (.exc 1 0, 0)] 0 = .cancelled := by
+  decide
+
+/-- the hypotheses of `interrupted_run_stores_no_marker` are satisfiable (first call, consumer stops after two items) -/
+example : markerCount ((afterI ⟨.all, fun _ => 8⟩ threeItems []).store.find (ckey 0 0)) = 0 ∧
+    (ending (.take 1) (threeItems (afterI ⟨.all, fun _ => 8⟩ threeItems []).runs.length).steps 0).done = false := by decide
+
+/-- the hypotheses of `interrupted_run_never_replayed` are satisfiable: run 0 abandoned, run 1 complete, then a replay -/
+example : ∃ r rs, (afterI ⟨.all, fun _ => 8⟩ threeItems [.iter 0 (.take 1), .iter 0 .drain]).runs[0]? = some r ∧
+    r.ending = .abandoned ∧
+    (Iter.step ⟨.all, fun _ => 8⟩ threeItems (afterI ⟨.all, fun _ => 8⟩ threeItems [.iter 0 (.take 1), .iter 0 .drain])
+      (.iter 0 .drain)).2 = .got rs true :=
+  ⟨⟨0, 0, [.val 0 0, .val 0 1], 0, .take 1, .abandoned⟩, [.val 1 0, .val 1 1, .val 1 2], by decide, rfl, by decide⟩
 
 end iterator
 
